@@ -232,7 +232,7 @@ func checkC17(tier string) int {
 
 func checkC18(tier string) int {
 	rep := vx.NewReport("C18", tier, "exploration")
-	rep.Rule = "E5 small-scope enumeration: mode {lookupd, direct} x lookupds {1,2} x nsqds {1,2,3} x every placement of two topics on non-empty node subsets x channel layouts {none, one, two incl. the same name on several nodes} with counters drawn from {0, 1, 2^40} and clients {none, minimal, all optional fields}; x health: all healthy, every single upstream with every fault kind {refused, 500, empty body, null, wrong JSON types, inconsistent}, every pair of upstreams refused, all refused. /api/topics, /api/topics/:t, /api/topics/:t/:c, /api/nodes, /api/counter compared with the model cluster (unions and sums over healthy upstreams, warning vs 502). distinct = distinct (case class, outcome) pairs"
+	rep.Rule = "E5 small-scope enumeration: mode {lookupd, direct} x lookupds {1,2} x nsqds {1,2,3} x every placement of two topics on non-empty node subsets x channel layouts {none, one, two incl. the same name on several nodes} with counters drawn from {0, 1, 2^40} and clients {none, minimal, all optional fields}; x health: all healthy, every single upstream with every fault kind {refused, 500, empty body, null, wrong JSON types, inconsistent}, every pair of upstreams refused, all refused; plus two healthy lookupds that each know every ordered non-empty subset of 2-3 nodes (partial registration, answer order). /api/topics, /api/topics/:t, /api/topics/:t/:c, /api/nodes, /api/counter compared with the model cluster (unions and sums over healthy upstreams, warning vs 502). distinct = distinct (case class, outcome) pairs"
 	rep.Assumptions = []string{"a null document from an upstream decodes as an empty one (no warning required); an inconsistent document may be used or dropped: for these two kinds only survival, status and well-formedness are judged"}
 	var cases []aCase
 	counters := []int64{0, 1, 1 << 40}
@@ -328,7 +328,58 @@ func checkC18(tier string) int {
 			}
 		}
 	}
+	nHealth := len(cases)
+	// partial registration: two healthy lookupds that each know an ORDERED subset of the
+	// nodes (an nsqd registered with only some lookupds; answer order is the lookupd's own)
+	for nn := 2; nn <= 3; nn++ {
+		subs := orderedSubsets(nn)
+		full := (1 << nn) - 1
+		for _, ka := range subs {
+			for _, kb := range subs {
+				for _, pb := range []int{0, full &^ 1} {
+					for layout := 1; layout < 3; layout++ {
+						c := nsqadmin.MCluster{Lookupds: []string{"ok", "ok"}, Knows: [][]int{ka, kb}}
+						for i := 0; i < nn; i++ {
+							n := nsqadmin.MNode{Host: fmt.Sprintf("host%d", i), Health: "ok"}
+							for ti, mask := range []int{full, pb} {
+								if mask&(1<<i) == 0 {
+									continue
+								}
+								t := nsqadmin.MTopic{Name: []string{"ta", "tb"}[ti], Depth: next(), Msgs: next()}
+								t.Channels = []nsqadmin.MChannel{mkChan("c", i+ti)}
+								if layout == 2 {
+									t.Channels = append(t.Channels, mkChan(fmt.Sprintf("d%d", i%2), i+1))
+								}
+								n.Topics = append(n.Topics, t)
+							}
+							c.Nodes = append(c.Nodes, n)
+						}
+						cases = append(cases, aCase{"view", mustJSON(c)})
+					}
+				}
+			}
+		}
+	}
 	runAll(rep, cases, 24, "C18 nsqadmin crashed")
-	rep.Extra["clusters_x_health_cases"] = len(cases)
+	rep.Extra["clusters_x_health_cases"] = nHealth
+	rep.Extra["partial_registration_cases"] = len(cases) - nHealth
 	return rep.Finish()
+}
+
+// orderedSubsets returns every non-empty subset of {0..n-1} in every order.
+func orderedSubsets(n int) [][]int {
+	var out [][]int
+	var rec func(cur []int, used int)
+	rec = func(cur []int, used int) {
+		if len(cur) > 0 {
+			out = append(out, append([]int{}, cur...))
+		}
+		for i := 0; i < n; i++ {
+			if used&(1<<i) == 0 {
+				rec(append(cur, i), used|1<<i)
+			}
+		}
+	}
+	rec(nil, 0)
+	return out
 }
